@@ -1,2 +1,71 @@
-(* C15 placeholder *)
-From MPB Require Import Base.
+(* C15 — A render error shuts the container down cleanly.
+   Statements over Container.step (ContainerLife.v) and the width-synchronisation
+   protocol (SyncProofs.v).
+   History: on the pinned tree flush returned at the first frame error and the bars
+   still exchanging widths in that cycle were stranded ("fix: a render error no longer
+   strands bars that are in the middle of width sync"); the model follows the repaired
+   code: after an error the cycle's remaining bars are received and pushed back. *)
+From MPB Require Import Base BaseProofs BarState Container ContainerProofs ContainerLife Sync SyncProofs.
+
+(* the error latches, cancels the container, and no cycle can begin again *)
+Theorem C15_error_stops_rendering : forall s s',
+  step s CT_RENDERERR = Some s' -> PendIdle s ->
+  Quiet s' /\ errored s' = true /\ cancelled s' = true /\ outframes s' = outframes s /\ step s' CT_RENDERBEGIN = None.
+Proof.
+  intros s s' H P. destruct (rendererr_quiet _ _ H P) as (Q & E & C & O). repeat split; try assumption; try apply Q.
+  apply quiet_no_cycle. exact Q.
+Qed.
+Print Assumptions C15_error_stops_rendering.
+
+(* no further frame, for every continuation *)
+Theorem C15_no_further_frame : forall s s1 evs s2,
+  PendIdle s -> step s CT_RENDERERR = Some s1 -> run s1 evs = Some s2 ->
+  outframes s2 = outframes s /\ errored s2 = true.
+Proof. exact no_frame_after_error. Qed.
+Print Assumptions C15_no_further_frame.
+
+Theorem C15_pending_only_between_cycles : forall p a d evs s, run (init_cst p a d) evs = Some s -> PendIdle s.
+Proof.
+  intros p a d evs. assert (G : forall s0 s, PendIdle s0 -> run s0 evs = Some s -> PendIdle s).
+  { induction evs as [|e evs IH]; intros s0 s I; unfold run; cbn.
+    - intros E; inversion E; subst; exact I.
+    - destruct (step s0 e) as [s1|] eqn:E; [|discriminate]. intros R. apply (IH s1); [|exact R].
+      eapply step_PendIdle; eauto. }
+  intros s. apply G. apply PendIdle_init.
+Qed.
+Print Assumptions C15_pending_only_between_cycles.
+
+(* the bars of the failing cycle are all received: the ordered iteration runs to its end,
+   so no bar is left blocked handing over its frame (flush with cycle_err set) *)
+Theorem C15_cycle_is_drained : forall s b sh nrows rmf np err s',
+  step s (CT_FLUSHBAR b sh nrows rmf np err) = Some s' -> cycle_err s = true ->
+  exists rest, popped s = b :: rest /\ popped s' = rest /\ In b (cycle_flushed s').
+Proof.
+  intros s b sh nrows rmf np err s' H C. unfold step in H.
+  destruct (ph s) as [|wd ht rows n pc pushes|] eqn:P; try discriminate.
+  destruct (lookup b (bars s)) as [r|] eqn:L; [|discriminate].
+  destruct (br_frame r) as [fi|] eqn:F; [|discriminate].
+  destruct (popped s) as [|p0 rest] eqn:Pp; cbn [negb] in H; [discriminate|].
+  destruct (Z.eqb_spec b p0); cbn [negb] in H; [|discriminate]. subst p0. rewrite C in H.
+  exists rest. split; [reflexivity|]. inversion H; subst; clear H.
+  destruct (_ && _ && _); simp_state; (split; [reflexivity|apply in_or_app; right; left; reflexivity]).
+Qed.
+Print Assumptions C15_cycle_is_drained.
+
+(* width synchronisation cannot wedge: while a cell of the sync table is unfinished some cell can step,
+   and every run of the protocol ends within 2·n steps with every cell answered *)
+Theorem C15_width_sync_progress : forall c s,
+  wf c -> SInv c s -> (exists i, i < nch c /\ s i <> 2) -> exists a s', sstep c s a = Some s'.
+Proof. exact sync_progress. Qed.
+Print Assumptions C15_width_sync_progress.
+
+Example C15_nonvacuous :
+  exists s, run (init_cst false true false)
+    [CT_OP; CT_ADD 0 0 0 5 None None false false true 0 false; HM_PUSH 0 true 0 false 0;
+     CT_OP; CT_ADD 1 1 1 7 None None false false true 0 false; HM_PUSH 1 true 1 true 0;
+     CT_RENDERBEGIN; HM_SYNC 2 true 0; HM_ITERREQ true 2; CT_RENDERSIZE 80 24;
+     BAR_RENDER 0 0 5 0 false false 0; BAR_RENDER 1 0 7 0 false false 0; BAR_DRAWERR 1;
+     HM_POP 1 1; HM_POP 0 0; CT_FLUSHBAR 1 0 1 false false true; CT_FLUSHBAR 0 0 1 false false false;
+     CT_RENDERERR] = Some s
+  /\ errored s = true /\ cancelled s = true /\ outframes s = [] /\ fifo s = [QPush 0 false].
+Proof. eexists. vm_compute. repeat split. Qed.
